@@ -221,7 +221,7 @@ func runSimple(seed int64, ncalls int, out string, crash bool, budget int) {
 	}
 	cands := candidates(base, evs)
 	rng2 := rand.New(rand.NewSource(seed ^ 77))
-	for _, cp := range crashPoints(evs, rng2, false, budget) {
+	for _, cp := range crashPoints(evs, rng2, false, budget, 0) {
 		img := CrashImage(base, evs, cp.n, cp.drop)
 		var rs *simple.Nfs
 		func() {
@@ -324,7 +324,7 @@ func runKvs(seed int64, ncalls int, out string, budget int) {
 	}
 	cands := candidates(base, evs)
 	rng2 := rand.New(rand.NewSource(seed ^ 99))
-	for _, cp := range crashPoints(evs, rng2, false, budget) {
+	for _, cp := range crashPoints(evs, rng2, false, budget, 0) {
 		img := CrashImage(base, evs, cp.n, cp.drop)
 		var rs *kvs.KVS
 		func() {
